@@ -1,4 +1,11 @@
-"""Generators and the FIFO oracle for the sequential ring-buffer streams (C07, C11)."""
+"""Generators and the property oracle for the sequential ring-buffer streams (C07, C11).
+
+Op lines (driver `ring` / harness rb_seq): open S FLAGS PAGE; write HEX; alloc N; commit HEX;
+read CAP; peek; reclaim; free; used; ptrs; sem.  `alloc N` + `commit HEX` is the two-phase write
+(`qb_rb_chunk_alloc(N)`, memcpy, `qb_rb_chunk_commit(len)`, len <= N); ill-formed uses (alloc or
+write while an allocation is pending, commit without one or longer than allocated) are answered
+`bad-op` by both sides and not executed.
+"""
 import os
 
 PAGE = os.sysconf("SC_PAGESIZE")
@@ -57,36 +64,67 @@ def gen_case(rng, overwrite=False, nops=None, nosem=None):
     ops = ["open %d %d %d" % (S, flags, PAGE)]
     nops = nops or rng.randrange(5, 60)
     style = rng.random()
-    queued = 0   # rough estimate of bytes queued, for steering
-    peeked = False
+    twophase = rng.random() < 0.7          # this case uses alloc+commit at all
+    queued = [0]   # rough estimate of bytes queued, for steering
+    big = 4 * W + 64
+
+    def length():
+        x = rng.random()
+        if x < 0.15:
+            return rng.choice([0, 1, 2, 3, 4, 5, 7, 8])
+        if x < 0.35:
+            return rng.randrange(0, 64)
+        if x < 0.55:
+            return max(0, min(S + 20, S - rng.randrange(0, 24)))
+        if x < 0.70:
+            return max(0, 4 * W - queued[0] - rng.randrange(0, 40))     # around the refusal / drop boundary
+        if x < 0.80:
+            return S + rng.randrange(0, 3 * PAGE)
+        return rng.randrange(0, max(1, S))
+
+    def reader_op():
+        c = rng.random()
+        if c < 0.6:
+            ops.append("read %d" % (big if rng.random() < 0.8 else rng.randrange(0, 64)))
+        elif c < 0.9:
+            ops.append("peek")
+            if rng.random() < 0.85:
+                ops.append("reclaim")
+        else:
+            ops.append("free")
+
     for _ in range(nops):
         r = rng.random()
-        # length distribution: steer towards the interesting regions
-        def length():
-            x = rng.random()
-            if x < 0.15:
-                return rng.choice([0, 1, 2, 3, 4, 5, 7, 8])
-            if x < 0.35:
-                return rng.randrange(0, 64)
-            if x < 0.55:
-                return max(0, min(S + 20, S - rng.randrange(0, 24)))
-            if x < 0.70:
-                return max(0, 4 * W - queued - rng.randrange(0, 40))     # around the refusal boundary
-            if x < 0.80:
-                return S + rng.randrange(0, 3 * PAGE)
-            return rng.randrange(0, max(1, S))
         wprob = 0.55 if style < 0.5 else (0.75 if style < 0.8 else 0.35)
         if r < wprob:
-            n = length()
-            if n > 5 * PAGE:
-                n = 5 * PAGE
-            ops.append("write " + payload(rng, n, S))
-            queued += n + 8
+            n = min(length(), 5 * PAGE)
+            if twophase and rng.random() < 0.5:
+                # two-phase write; the committed length is often (much) smaller than the allocated one
+                y = rng.random()
+                if y < 0.25:
+                    ln = n
+                elif y < 0.65:
+                    ln = max(0, n - rng.choice([1, 2, 3, 4, 5, 7, 8, 9, 12, 16]))
+                else:
+                    ln = rng.randrange(0, n + 1)
+                ops.append("alloc %d" % n)
+                z = rng.random()
+                if z < 0.25:
+                    reader_op()                       # the reader runs between alloc and commit
+                elif z < 0.28:
+                    ops.append(rng.choice(["alloc 4", "write 00"]))   # ill-formed: both sides say bad-op
+                if rng.random() < 0.02:
+                    ops.append("commit " + payload(rng, n + 1 + rng.randrange(0, 8), S))   # longer than allocated: bad-op
+                ops.append("commit " + payload(rng, ln, S))
+                queued[0] += ln + 8
+            else:
+                ops.append("write " + payload(rng, n, S))
+                queued[0] += n + 8
         elif r < wprob + 0.25:
             c = rng.random()
-            cap = 4 * W + 64 if c < 0.8 else rng.randrange(0, 64)
+            cap = big if c < 0.8 else rng.randrange(0, 64)
             ops.append("read %d" % cap)
-            queued = max(0, queued - 64)
+            queued[0] = max(0, queued[0] - 64)
         elif r < wprob + 0.35:
             ops.append("peek")
             if rng.random() < 0.85:
@@ -97,15 +135,22 @@ def gen_case(rng, overwrite=False, nops=None, nosem=None):
             ops.append("free")
         elif r < wprob + 0.45:
             ops.append("used")
+        elif r < wprob + 0.46:
+            ops.append("commit 00")                   # commit without alloc: bad-op on both sides
         else:
             # drain
             for _ in range(rng.randrange(1, 6)):
-                ops.append("read %d" % (4 * W + 64))
-            queued = 0
-    # final drain so that everything written is observed
-    for _ in range(rng.randrange(0, 8)):
-        ops.append("read %d" % (4 * W + 64))
+                ops.append("read %d" % big)
+            queued[0] = 0
+    # final drain so that everything still stored is observed
+    for _ in range(rng.randrange(0, 8) if not overwrite else rng.randrange(2, 10)):
+        ops.append("read %d" % big)
     return ops
+
+
+def gen_case_ow(rng, nops=None, nosem=None):
+    """Overwrite-mode case: mixes tiny and near-capacity chunks and drains the ring at generated points."""
+    return gen_case(rng, overwrite=True, nops=nops, nosem=nosem)
 
 
 def parse_data(line):
@@ -117,11 +162,19 @@ def parse_data(line):
 
 
 def fifo_oracle(ops, out, overwrite=False):
-    """The property evaluated on the implementation's own output.
-    Non-overwrite (C07): write result must be len or EAGAIN, EAGAIN only when the 16-byte
-    accounting says it does not fit; reads/peeks return the head of the queue of accepted
-    writes, byte for byte; ENOBUFS leaves the chunk; ETIMEDOUT (no semaphore) only when empty.
-    Overwrite (C11): every write <= S succeeds; contents = newest suffix covering all that fit."""
+    """The property evaluated on the implementation's own output (independent of the Lean model).
+
+    Knowledge state: `q` = every accepted, not yet consumed chunk (hex), oldest first, and `K` = the
+    set of admissible numbers of chunks actually stored (the stored contents are the newest k
+    chunks of q for some k in K).  Plain ring (C07): K = {len(q)}; a write/alloc is refused
+    (EAGAIN) only when the unread chunks plus the (allocated) length, 16 bytes of overhead each,
+    do not fit in S, and never by an empty ring when the length is at most S; a refused write
+    changes nothing.  Overwrite ring (C11): every write/alloc of at most S bytes succeeds; it may
+    drop oldest chunks, but every run of newest chunks that fits in S together with the new
+    (allocated) length by the 16-byte accounting survives, and the new chunk is stored (k >= 1).
+    Reads/peeks return the oldest stored chunk byte for byte, ENOBUFS leaves it in place, an empty
+    result is only allowed when k = 0 is admissible (or, with a semaphore, when a peeked chunk has
+    not been reclaimed)."""
     if not ops or not ops[0].startswith("open"):
         return None
     o = ops[0].split()
@@ -130,9 +183,60 @@ def fifo_oracle(ops, out, overwrite=False):
     nosem = bool(flags & 0x10)
     if len(out) < 1 or not out[0].startswith("ok"):
         return "open failed: %r" % (out[:1],)
-    q = []          # accepted, unread chunks (hex strings)
-    sem = 0         # semaphore value when present
-    peeked = None
+    q = []          # accepted, not yet consumed chunks (hex strings), oldest first
+    st = {"K": {0},       # admissible numbers of stored chunks
+          "pend": None,   # allocated length of the pending alloc
+          "slack": 0}     # successful peeks not (yet) followed by a reclaim (semaphore below chunk count)
+
+    def head(k):
+        return q[len(q) - k]
+
+    def fitlen(n):
+        """length of the longest suffix of q that fits in S together with a new chunk of n bytes"""
+        tot = n + 16
+        j = 0
+        for c in reversed(q):
+            tot += len(c) // 2 + 16
+            if tot > S:
+                break
+            j += 1
+        return j
+
+    def trim():
+        # chunks older than the largest admissible k are gone for good
+        m = max(st["K"])
+        if m < len(q):
+            del q[:len(q) - m]
+
+    def alloc(i, n, res, what):
+        """space rule at alloc time; returns (error, accepted)"""
+        K = st["K"]
+        if res in ("ok", str(n)) and not (what == "alloc" and res != "ok") and not (what == "write" and res != str(n)):
+            if overwrite:
+                f = fitlen(n)
+                st["K"] = set(range(min(min(K), f), max(K) + 1))
+            return None, True
+        if overwrite:
+            if n <= S:
+                return "op %d: %s of %d bytes (<= S=%d) failed with %s in overwrite mode" % (i, what, n, S, res), False
+            if res == "EINVAL":
+                st["K"] = set(range(0, max(K) + 1))      # the reclaim loop may have dropped anything
+                return None, False
+            return "op %d: %s of %d bytes returned %s" % (i, what, n, res), False
+        if res == "EAGAIN":
+            cur = q[len(q) - max(K):] if max(K) else []
+            if not cur and n <= S:
+                return "op %d: %s of %d bytes refused by an EMPTY ring created for S=%d" % (i, what, n, S), False
+            if sum(len(c) // 2 + 16 for c in cur) + n + 16 <= S:
+                return ("op %d: %s of %d bytes refused although %d unread chunks + it fit in S=%d with 16 bytes "
+                        "overhead each" % (i, what, n, len(cur), S)), False
+            return None, False
+        return "op %d: %s of %d bytes returned %s" % (i, what, n, res), False
+
+    def push(h):
+        q.append(h)
+        st["K"] = {k + 1 for k in st["K"]}
+
     for i, op in enumerate(ops[1:], 1):
         if i >= len(out):
             return "op %d (%s): no output (implementation died: %s)" % (i, op.split()[0], out[-1] if out else "")
@@ -141,64 +245,88 @@ def fifo_oracle(ops, out, overwrite=False):
         if res.startswith("SAN:") or res.startswith("CRASH") or res.startswith("TIMEOUT"):
             return "op %d (%s): %s" % (i, t[0], res)
         if t[0] == "write":
+            if st["pend"] is not None:
+                if res != "bad-op":
+                    return "op %d: write while an allocation is pending was executed (%s)" % (i, res)
+                continue
             h = "" if t[1] == "-" else t[1]
             n = len(h) // 2
-            if res == str(n):
-                if overwrite:
-                    # oldest chunks may have been overwritten; handled on read
-                    q.append(h)
-                else:
-                    q.append(h)
-                sem += 1
-            elif res == "EAGAIN" and not overwrite:
-                fits = sum(len(c) // 2 + 16 for c in q) + n + 16 <= S
-                if not q and n <= S:
-                    return "op %d: write of %d bytes refused by an EMPTY ring created for S=%d" % (i, n, S)
-                if fits:
-                    return "op %d: write of %d bytes refused although %d unread chunks + it fit in S=%d with 16 bytes overhead each" % (i, n, len(q), S)
-            elif overwrite and n > S and res in ("EINVAL", "EAGAIN"):
-                pass
-            else:
-                return "op %d: write of %d bytes returned %s" % (i, n, res)
+            err, ok = alloc(i, n, res, "write")
+            if err:
+                return err
+            if ok:
+                push(h)
+            trim()
+        elif t[0] == "alloc":
+            if st["pend"] is not None:
+                if res != "bad-op":
+                    return "op %d: alloc while an allocation is pending was executed (%s)" % (i, res)
+                continue
+            n = int(t[1])
+            err, ok = alloc(i, n, res, "alloc")
+            if err:
+                return err
+            if ok:
+                st["pend"] = n
+            trim()
+        elif t[0] == "commit":
+            h = "" if t[1] == "-" else t[1]
+            n = len(h) // 2
+            if st["pend"] is None or n > st["pend"]:
+                if res != "bad-op":
+                    return "op %d: ill-formed commit was executed (%s)" % (i, res)
+                continue
+            if res != "0":
+                return "op %d: commit of %d bytes (allocated %d) returned %s" % (i, n, st["pend"], res)
+            st["pend"] = None
+            push(h)
         elif t[0] in ("read", "peek"):
+            K = st["K"]
             d = parse_data(res)
             if d is not None:
                 n, h = d
-                if overwrite:
-                    # drop overwritten (oldest) chunks: the returned chunk must be some queued
-                    # chunk, and everything older than it is gone for good
-                    while q and q[0] != h:
-                        q.pop(0)
-                    if not q:
-                        return "op %d: %s returned a chunk (%d bytes) that is not any retained written chunk" % (i, t[0], n)
-                else:
-                    if not q:
+                if n != len(h) // 2:
+                    return "op %d: %s returned length %d with %d bytes" % (i, t[0], n, len(h) // 2)
+                cand = {k for k in K if k >= 1 and head(k) == h}
+                if not cand:
+                    if not any(k >= 1 for k in K):
                         return "op %d: %s returned a %d-byte chunk from an empty ring (phantom chunk)" % (i, t[0], n)
-                    if q[0] != h or n != len(h) // 2:
-                        return "op %d: %s returned %d bytes that differ from the oldest unread chunk (%d bytes)" % (i, t[0], n, len(q[0]) // 2)
+                    return ("op %d: %s returned %d bytes that are not the oldest stored chunk of any admissible "
+                            "contents (oldest unread chunk has %d bytes)" % (i, t[0], n, len(head(max(K))) // 2))
                 if t[0] == "read":
                     cap = int(t[1])
                     if n > cap:
                         return "op %d: read returned %d bytes into a %d-byte buffer" % (i, n, cap)
-                    q.pop(0)
-                sem = max(0, sem - 1)
+                    st["K"] = {k - 1 for k in cand}
+                else:
+                    st["K"] = cand
+                    st["slack"] += 1
+                trim()
             elif res == "ENOBUFS" and t[0] == "read":
-                if not overwrite and (not q or len(q[0]) // 2 <= int(t[1])):
-                    return ("op %d: ENOBUFS from an empty ring (phantom chunk)" % i) if not q else ("op %d: ENOBUFS although the oldest chunk fits" % i)
+                cap = int(t[1])
+                cand = {k for k in K if k >= 1 and len(head(k)) // 2 > cap}
+                if not cand:
+                    if not any(k >= 1 for k in K):
+                        return "op %d: ENOBUFS from an empty ring (phantom chunk)" % i
+                    return "op %d: ENOBUFS although the oldest chunk fits" % i
+                st["K"] = cand
+                trim()
             elif res in ("ETIMEDOUT", "timeout", "EBADMSG"):
-                if nosem and q and not overwrite:
-                    return "op %d: %s reported %s although %d chunks are unread" % (i, t[0], res, len(q))
-                if res == "EBADMSG" and not nosem and not overwrite:
-                    # semaphore said there is a chunk but the head is not valid
-                    if q:
-                        return "op %d: EBADMSG with %d unread chunks" % (i, len(q))
+                empty_ok = 0 in K
+                if not empty_ok and nosem:
+                    return "op %d: %s reported %s although at least %d chunks are stored" % (i, t[0], res, min(K))
+                if not empty_ok and not nosem and st["slack"] == 0:
+                    return ("op %d: %s reported %s although at least %d chunks are stored and every peeked chunk "
+                            "was reclaimed" % (i, t[0], res, min(K)))
+                if empty_ok and nosem:
+                    st["K"] = {0}
+                    trim()
             else:
                 return "op %d: %s returned %s" % (i, t[0], res)
         elif t[0] == "reclaim":
-            if q and not overwrite:
-                q.pop(0)
-            elif q and overwrite:
-                q.pop(0) if False else None
+            st["K"] = {max(k - 1, 0) for k in st["K"]}
+            trim()
+            st["slack"] = max(0, st["slack"] - 1)
     return None
 
 
@@ -210,11 +338,47 @@ def tags(ops, out):
         t.add("short-read")
     if any(r in ("ETIMEDOUT", "timeout") for r in out):
         t.add("empty-read")
-    nw = sum(1 for op, r in zip(ops, out) if op.startswith("write") and r.isdigit())
+    nw = sum(1 for op, r in zip(ops, out) if (op.startswith("write") and r.isdigit()) or (op.startswith("commit") and r == "0"))
     if nw >= 3:
         t.add("multi-chunk")
-    if any(op.startswith("write") and ("a1a1a1a1" in op) for op in ops):
+    if any((op.startswith("write") or op.startswith("commit")) and ("a1a1a1a1" in op) for op in ops):
         t.add("magic-in-payload")
     if any(op.startswith("write") and op.split()[1] != "-" and (len(op.split()[1]) // 2) % 4 for op in ops):
         t.add("unaligned-len")
+    # two-phase writes whose committed length is smaller than the allocated one
+    last = None
+    for op, r in zip(ops, out):
+        p = op.split()
+        if p[0] == "alloc" and r == "ok":
+            last = int(p[1])
+        elif p[0] == "commit" and r == "0" and last is not None:
+            n = 0 if p[1] == "-" else len(p[1]) // 2
+            if n < last:
+                t.add("short-commit")
+            if n + 8 <= last:
+                t.add("short-commit-2words")
+            last = None
+        elif p[0] in ("read", "peek") and last is not None and r != "bad-op":
+            t.add("reader-between-alloc-commit")
+    if any(r == "bad-op" for r in out):
+        t.add("ill-formed-rejected")
+    return t
+
+
+def tags_ow(ops, out):
+    """non-triviality tags for overwrite cases: chunks overwritten, contents read back, oversize"""
+    t = tags(ops, out)
+    S = int(ops[0].split()[1])
+    stored = 0
+    for op, r in zip(ops[1:], out[1:]):
+        p = op.split()
+        if (p[0] == "write" and r.isdigit()) or (p[0] == "commit" and r == "0"):
+            n = 0 if p[1] == "-" else len(p[1]) // 2
+            stored += n + 8
+            if stored > 4 * words_of(S):
+                t.add("wrapped-over-old-chunks")
+        elif p[0] == "read" and parse_data(r):
+            t.add("read-back")
+        if r == "EINVAL":
+            t.add("oversize-einval")
     return t
